@@ -20,7 +20,7 @@ CLAIMED = {
          'Histories longer than the reduced space are covered because the graph is complete (every reachable state, every operation).',
          'DESIGN 6/C13', 'ids'),
  'C01': ('model_checking',
-   'TLC trace validation of recorded executions of the real endpoints against RSocket.tla (+ design-level TLC model checking of the same monitors)',
+   'TLC trace validation of recorded executions of the real endpoints against RSocket.tla, incl. schedules that cover every transition pair of the design-model graphs (RSocketMC.tla) and every transition of the two-interaction model (RSocketMC2.tla); design-level TLC model checking of the same monitors',
    'Recorded traces of the real endpoints (all five interaction models, either initiator, fragment sizes none/64/65/67/100/1000, TCP framing with adversarial read chunking and message framing, gated sender, scripted and library publishers) are validated by TLC against RSocket.tla: every delivery must be the next undelivered payload of its own stream and direction, byte-for-byte (payload ids are resolved from the delivered bytes), responses correlate with their requests, and at quiescence everything handed has been delivered exactly once.',
    CONN_NOTE, 'DESIGN 6/C01', 'conn'),
  'C05': ('model_checking',
@@ -40,11 +40,11 @@ CLAIMED = {
    "A wire monitor per endpoint (RSocket.tla OnEnq) judges every queued frame against the endpoint's own earlier emissions and receptions: SETUP first and once, parity, first frame is a request, frame types allowed for role and interaction model, positive initial n, no payload after own complete, nothing after ERROR / requester CANCEL / both directions complete, connection frames on stream 0 only.",
    CONN_NOTE, 'DESIGN 6/C08', 'conn'),
  'C09': ('model_checking',
-   'TLC trace validation of recorded executions of the real endpoints against RSocket.tla (+ design-level TLC model checking of the same monitors)',
+   'TLC trace validation of recorded executions of the real endpoints against RSocket.tla, incl. schedules that cover every transition pair of the design-model graphs (RSocketMC.tla) and every transition of the two-interaction model (RSocketMC2.tla); design-level TLC model checking of the same monitors',
    "Cancellation monitors: exactly one CANCEL per pending cancellation, nothing delivered to the canceller afterwards, the peer's publisher / handler future / library source is cancelled by quiescence and produces nothing afterwards; cancels are issued at random moments including in the same read as the request.",
    CONN_NOTE, 'DESIGN 6/C09', 'conn'),
  'C10': ('model_checking',
-   'TLC trace validation of recorded executions of the real endpoints against RSocket.tla (+ design-level TLC model checking of the same monitors)',
+   'TLC trace validation of recorded executions of the real endpoints against RSocket.tla, incl. schedules that cover every transition pair of the design-model graphs (RSocketMC.tla) and every transition of the two-interaction model (RSocketMC2.tla); design-level TLC model checking of the same monitors',
    'At every quiescence snapshot the real stream table and reassembly cache of both endpoints are compared with the set of interactions the specification still considers live (normally empty), over every ending the families produce.',
    CONN_NOTE, 'DESIGN 6/C10', 'conn'),
  'C03': ('model_checking',
